@@ -14,7 +14,9 @@ trajectories), against
       TRR     the real `GromacsRunner.get_gromacs_frames` size guards, driven without GROMACS: TRR
               bytes written with `struct` (both byte orders, both precisions) in chunks at every byte
               boundary; every yielded frame must equal a written frame, in order, each once, none
-              raised on.
+              raised on; every `fileh.read` must be fully served by the visible bytes; the sequence of guard
+              decisions (wait / read offset length) is compared with the Lean model `trrRun` fed with the file
+              sizes the real guards observed.
 """
 from __future__ import annotations
 
@@ -26,6 +28,7 @@ import tempfile
 
 from common import err_kind, hexs, lst
 
+CORPUS_IN_RUN = True   # run() replays corpus/C13/*.json itself, first (see replay_corpus)
 SIG_TORN = "C13:xyz:cut-inside-last-token"
 SIG_RAISE = "C13:xyz:partial-line-raises"
 
